@@ -86,6 +86,16 @@ func xFin(db *gorm.DB, x XOp) *gorm.DB {
 		return db.Create(&Doc{Title: x.Title})
 	case "update":
 		return db.Model(&Doc{}).Where("id = ?", x.ID).Update("title", x.Title)
+	case "update_nocond": // no condition at all: ErrMissingWhereClause, nothing may be sent
+		return db.Model(&Doc{}).Update("title", x.Title)
+	case "updates_nocond":
+		return db.Model(&Doc{}).Updates(map[string]interface{}{"title": x.Title})
+	case "update_column_nocond":
+		return db.Model(&Doc{}).UpdateColumn("title", x.Title)
+	case "delete_nocond":
+		return db.Delete(&Doc{})
+	case "unscoped_delete_nocond":
+		return db.Unscoped().Delete(&Doc{})
 	case "update_returning":
 		return db.Model(&Doc{}).Clauses(clause.Returning{}).Where("id = ?", x.ID).Update("title", x.Title)
 	case "delete":
@@ -261,11 +271,11 @@ func classify(in Input) (kind, fin string, ret bool) {
 			return "OpCreate", fin, true
 		case "batch_create", "batchsize_create":
 			return "OpCreate", "FBatch", true
-		case "update", "carry_update":
+		case "update", "carry_update", "update_nocond", "updates_nocond", "update_column_nocond":
 			return "OpUpdate", fin, false
 		case "update_returning":
 			return "OpUpdate", fin, true
-		case "delete", "unscoped_delete": // a soft delete is an UPDATE text built and sent by the delete callbacks
+		case "delete", "unscoped_delete", "delete_nocond", "unscoped_delete_nocond": // a soft delete is an UPDATE text built and sent by the delete callbacks
 			return "OpDelete", fin, false
 		case "delete_returning", "unscoped_delete_returning":
 			return "OpDelete", fin, true
@@ -430,7 +440,7 @@ func main() {
 	}
 	xops := []string{"create", "update", "delete", "unscoped_delete", "find", "first", "rows", "save_existing", "save_missing", "save_new",
 		"update_returning", "delete_returning", "unscoped_delete_returning", "carry_find", "carry_first", "carry_count", "carry_update",
-		"batch_create", "batchsize_create"}
+		"batch_create", "batchsize_create", "update_nocond", "updates_nocond", "update_column_nocond", "delete_nocond", "unscoped_delete_nocond"}
 	n := 0
 	for i := 0; i < budget; i++ {
 		in := Input{Mode: lib.Pick(r, []string{"config", "session", "tosql"}), Skip: r.Chance(1, 3)}
@@ -451,11 +461,17 @@ func main() {
 			g := cgen.NewGen(r.Fork())
 			c := g.Input()
 			c.NoExec = !g.Exec()
+			switch c.Fin.K {
+			case "update", "updates_map", "updates_struct", "delete":
+				if r.Chance(1, 6) && len(c.Fin.L) == 0 {
+					c.Chain = nil // no condition: the real run refuses (ErrMissingWhereClause)
+				}
+			}
 			in.C01 = &c
 			in.Carry = r.Chance(1, 3)
 		}
 		add(kind, in)
 	}
-	out.Extra["rule"] = "cases = operation x DryRun mode {Config.DryRun, Session{DryRun}, ToSQL} x SkipDefaultTransaction {false,true}; operation = a C01 chain+finisher on Item (Find/First/Take/Last/Count/Pluck, Update/Updates, Delete, Create from struct/slice/map/[]map incl. OnConflict, Exec, Raw+Scan) or an operation on Doc (soft delete, tracked update time, pinned NowFunc): Create, Update, soft Delete, Unscoped Delete, Find, First, Rows, Save of an existing / missing / new record, Update / soft Delete / Unscoped Delete with clause.Returning{}, Find / First / Count / Update finishing a handle that already carries Model+Where+Order when DryRun or ToSQL is switched on (also a third of the C01 chains), CreateInBatches and Create with CreateBatchSize over more rows than the batch size; both runs start from the same re-seeded tables on identical SQLite handles behind the recording driver; statements SQLite rejects are kept (the real run then rolls back); distinct = distinct (mode, skip, operation skeleton); non-trivial = the real run sends at least one statement and the dry run exposes at least one bound value"
+	out.Extra["rule"] = "cases = operation x DryRun mode {Config.DryRun, Session{DryRun}, ToSQL} x SkipDefaultTransaction {false,true}; operation = a C01 chain+finisher on Item (Find/First/Take/Last/Count/Pluck, Update/Updates, Delete, Create from struct/slice/map/[]map incl. OnConflict, Exec, Raw+Scan) or an operation on Doc (soft delete, tracked update time, pinned NowFunc): Create, Update, soft Delete, Unscoped Delete, Find, First, Rows, Save of an existing / missing / new record, Update / soft Delete / Unscoped Delete with clause.Returning{}, Update / Updates / UpdateColumn / Delete without any condition (refused with ErrMissingWhereClause; also a sixth of the C01 update/delete chains lose their conditions), Find / First / Count / Update finishing a handle that already carries Model+Where+Order when DryRun or ToSQL is switched on (also a third of the C01 chains), CreateInBatches and Create with CreateBatchSize over more rows than the batch size; both runs start from the same re-seeded tables on identical SQLite handles behind the recording driver; statements SQLite rejects are kept (the real run then rolls back); distinct = distinct (mode, skip, operation skeleton); non-trivial = the real run sends at least one statement and the dry run exposes at least one bound value"
 	lib.Must(out.Flush())
 }
